@@ -35,6 +35,9 @@ class Fn:
             val = E.rv(res)
         if E.unknown_calls:
             raise ev.Inconclusive("unmodelled call " + E.unknown_calls[0])
+        from ..models import narrowing_casts
+        nar = narrowing_casts(val, F.numeric)
+        self.narrowed = (nar[0][0], ev.show(nar[0][1])[:100]) if nar else None
         conv = nf.Conv(positive=True)
         return [conv(t) for _, t in ev.flatten(val)]
 
@@ -186,6 +189,9 @@ def run(chk):
                     chk.violated("R1", inst, "%s applied to the result gives %s instead of %s%s" % (Gfn.label, sympy.simplify(comp[k]), target[k], "; e.g. at %s" % w if w else ""), loc, witness=w)
                 elif inc and not good:
                     chk.inconclusive("R1", inst, "%s: %s" % (inc[0][0].label, inc[0][2]), inc[0][3])
+                elif any(getattr(x, "narrowed", None) for x in [Ffn] + [g[0] for g in good]):
+                    nx = next(x for x in [Ffn] + [g[0] for g in good] if getattr(x, "narrowed", None))
+                    chk.violated("R1", inst, "%s computes through %s (%s): the round trip returns the original only to %s precision, not to a few ulps of %s" % (nx.label, nx.narrowed[0], nx.narrowed[1], nx.narrowed[0], T), short(nx.f.get("def_loc", nx.f["loc"])))
                 else:
                     chk.holds("R1", inst, "inverted by %s" % ", ".join(g[0].label for g in good)[:300], good[0][3] if good else "")
                     # R2: a-priori forward error bound of the composed computation (positive inputs)
